@@ -88,6 +88,16 @@ func VerifAgeBlobs(s Store, repoStr string, d time.Duration) error {
 				_ = os.Chtimes(p, t, t)
 			}
 		}
+		// ... and so do index.json and the store's note of when the repository was last modified
+		r.mu.Lock()
+		if fi, err := os.Stat(filepath.Join(r.path, indexFile)); err == nil {
+			t := fi.ModTime().Add(-d)
+			_ = os.Chtimes(filepath.Join(r.path, indexFile), t, t)
+		}
+		if !r.timeMod.IsZero() {
+			r.timeMod = r.timeMod.Add(-d)
+		}
+		r.mu.Unlock()
 		return nil
 	case *memRepo:
 		r.mu.Lock()
@@ -96,6 +106,9 @@ func VerifAgeBlobs(s Store, repoStr string, d time.Duration) error {
 			if b != nil {
 				b.m.mod = b.m.mod.Add(-d)
 			}
+		}
+		if !r.timeMod.IsZero() {
+			r.timeMod = r.timeMod.Add(-d)
 		}
 		return nil
 	}
